@@ -1,5 +1,6 @@
 CONSTANTS
  MaxSegs = 2
+ PtrMode = FALSE
  Nested = TRUE
 INIT Init
 NEXT Next
